@@ -69,4 +69,5 @@ func ZzC02OneResponse() {
 	}
 	zzCover("with cseq", hasCSeq)
 	zzCover("without cseq", !hasCSeq)
+	zzAssertMustFail(hasCSeq, "twin: every request carries a CSeq")
 }
